@@ -66,7 +66,13 @@ ASSUME_ALL = [
 
 def main():
     checks = []
-    STANDINS = {'C01': ' Bounded stand-ins (never counted as proved): `history` (second subscription on the topic must receive every message) and `lifecycle` cover the fan-out.', 'C02': ' Bounded stand-ins: `history`, `rpc` (unary and in-stream acks, batch with a malformed id).', 'C03': ' Bounded stand-in: `history` (ack-id freshness, no hand-out while leased).', 'C04': ' Bounded stand-ins: `history` (probes 1 ms before / 5 ms after each deadline), `rpc` (10 s floor through the API).', 'C05': ' Bounded stand-ins: `history`, `rpc` (in-stream extension counts from its receipt; rejected batches apply nothing).', 'C08': ' Bounded stand-ins: `order` (concurrent publishers), `history` (first deliveries in publish order).', 'C09': ' Bounded stand-ins: `lifecycle` (global id uniqueness across delete / re-create), `rpc` (content identity on pull, redelivery, second subscription).', 'C10': ' Bounded stand-ins: `lifecycle` (incl. racing creates), `rpc` (status codes, read-back).', 'C11': ' Bounded stand-ins: `lifecycle` (held topic handles, late duplicate deletes, re-creation), `rpc` (deleted-topic sentinel).', 'C13': ' Bounded stand-ins: `paging`, `lifecycle`, `rpc` (token walks through the RPC surface).', 'C15': ' Bounded stand-ins: `history`, `rpc` (max_messages around 65536, blocking and release of the unary wait loop).', 'C17': ' Bounded stand-ins: `names`, `paging`, `rpc` (malformed fields in every request type, server keeps serving).', 'C18': ' Bounded stand-in: `names` (strings near the fixed segments, identity of names as values and map keys).'}
+    # bounded stand-ins per property: taken from the driver that runs them (replay/replay_driver.py), so the note cannot go stale
+    sys.path.insert(0, os.path.join(HERE, "replay"))
+    import replay_driver
+    STANDINS = {}
+    for pid, kinds in replay_driver.BY_PROP.items():
+        STANDINS[pid] = " Bounded stand-ins (searches on the real crate, labelled bounded, never counted as proved): " + "; ".join(
+            "`%s` (%s)" % (k, replay_driver.SEARCHES[k][2]) for k in kinds) + "."
     for pid in sorted(CLAIMS):
         lvl, text, note = CLAIMS[pid]
         note = note + STANDINS.get(pid, "")
